@@ -41,7 +41,8 @@ EXPLANATION = ("the full statement of the property is a theorem: C16_holds : C16
                "passes the checker for every n (C16_Q_model_meets_check_general). The older bounded theorems (tau<=6, cycle "
                "n<=10, Q=QQ=brute n<=6, Q=cross n<=12) are kept as independent checks. Correspondence exhaustive over (n,k) "
                "for Q n<=12, QQ n<=6, tau<=6, cycle n<=12, and all 4-vertex substrates x vertex subsets x k for the counter, "
-               "plus seeded random substrates")
+               "plus seeded random substrates; the clique / cycle motifs are also evaluated through MessagePassing.resolve_equation "
+               "on covered networks (cover keys not tied to the motif size) and judged by the same checker")
 ASSUMPTIONS = ["networkx Graph.copy / remove_node / remove_edge / edges / is_connected / complete_graph and "
                "itertools.combinations behave as modelled (their results are compared with the model on every case)",
                "math.factorial, int pow and float arithmetic on the small integral floats of omega() are exact"]
